@@ -1,4 +1,5 @@
 import Heph.Proofs.TransKotlinPrinted
+import Heph.Spec.Brackets
 /-!
 # C12 — translations are faithful to the program's declarations and annotations (Kotlin modelled)
 
@@ -27,10 +28,22 @@ What is proved, for ALL programs (any `Node` tree, typed or not), every package 
   follows a variable's / function's declaration piece is its type annotation iff the program carries
   one (`var_type` / `ret_type` is not `None`), explicit type arguments are printed iff
   `can_infer_type_args` is false (and there are any); with the printed text.
-* `literals_ops_present` — see below.
+* `tag_in_doc_iff` / `piece_in_doc_iff` — a non-layout tag (piece) occurs in the doc iff one of the nodes the
+  translator visits (`printed`) contributes it (`own`); hence
+* `annot_iff_var`, `annot_iff_ret`, `annot_iff_targs` (every program): a type annotation of variable `v` /
+  return-type annotation of `f` / explicit type-argument list of a call of `f` is printed iff the program has
+  such a declaration carrying a type (`var_type` / `ret_type` not `None`) / such a call with
+  `can_infer_type_args = False` and type arguments; `annot_var_text`, `annot_ret_text` (`condOK`): what is
+  printed is the declared type.
+* `literals_ops_present` (`condOK`): every piece a visited node calls for — in particular every literal and
+  operator — is in the doc and its text is a part of the emitted text; `literals_ops_tags` (every program);
+  `literal_piece_iff`: conversely every literal piece is a literal of the program.
+* `balanced` — stated (`Spec/Brackets.lean`: `()`, `[]`, `{}` properly nested) and REFUTED as stated:
+  `balanced_counterexample` (the cut in `visit_conditional` removes the `{` of a lambda condition).  The
+  positive part (`condOK p` → balanced) is not proved yet; the harness checks the balance of every real text.
 -/
 namespace Heph.Props.C12
-open Heph Heph.TransKotlin
+open Heph Heph.TransKotlin Heph.Brackets
 
 /-- tags of the non-layout pieces, in order: doc = what the program calls for (every program) -/
 theorem doc_tags (package : Option String) (p : Program) :
@@ -216,6 +229,42 @@ theorem doc_pieces_counterexample : ¬ doc_pieces := by
   intro h
   exact absurd (h none badCond) (by decide +kernel)
 
+/-! ## balance -/
+
+/-- the full-strength statement: if the names, type names, literals and operators the program calls for
+    and the package name are bracket-neutral, the emitted text is balanced -/
+def balanced : Prop :=
+  ∀ (package : Option String) (p : Program),
+    (∀ pc ∈ semProgram p, Neutral pc.2) → Neutral (packageLine package) →
+    Balanced (flatten (kotlinDoc package p))
+
+theorem neutral_of_no_brackets (s : String)
+    (h : ∀ c ∈ s.toList, c ≠ '(' ∧ c ≠ ')' ∧ c ≠ '[' ∧ c ≠ ']' ∧ c ≠ '{' ∧ c ≠ '}') : Neutral s := by
+  intro stk
+  generalize s.toList = cs at h
+  induction cs generalizing stk with
+  | nil => rfl
+  | cons c r ih =>
+    have hc := h c List.mem_cons_self
+    simp only [run, step, hc.1, hc.2.1, hc.2.2.1, hc.2.2.2.1, hc.2.2.2.2.1, hc.2.2.2.2.2, or_self, if_false]
+    exact ih stk (fun d hd => h d (List.mem_cons_of_mem _ hd))
+
+/-- the code violates it: for `if ({x: Int -> true}) 1 else 2` the opening brace of the lambda is cut off
+    by `visit_conditional` although every piece the program calls for is bracket-free -/
+theorem balanced_counterexample : ¬ balanced := by
+  intro h
+  have hb := h none badCond
+    (by
+      intro pc hpc
+      apply neutral_of_no_brackets
+      revert pc
+      decide +kernel)
+    (neutral_of_no_brackets _ (by decide +kernel))
+  revert hb
+  decide +kernel
+
+example : ¬ Balanced (flatten (kotlinDoc none badCond)) := by decide +kernel
+
 /-! ## non-vacuity: the demo program of C11 -/
 
 /-- `open class B(open val x: Int)`, `class A<T: Any>(override val x: Int): B(1) { fun f(a: Int): Long = … }`,
@@ -248,5 +297,7 @@ example : declTags (kotlinDoc (some "src.pkg") demo) = inventory demo := doc_inv
 example : obs true (kotlinDoc (some "src.pkg") demo) = semProgram demo := doc_pieces_partial _ _ (by decide +kernel)
 example : (Tag.retAnnot "h", ": Int") ∉ semProgram demo ∧ (Tag.retAnnot "g", ": Int") ∈ semProgram demo ∧
     (Tag.targs "id", "<Int>") ∈ semProgram demo ∧ (Tag.op, "<") ∈ semProgram demo := by decide +kernel
+
+example : Balanced (flatten (kotlinDoc (some "src.pkg") demo)) := by decide +kernel
 
 end Heph.Props.C12
